@@ -215,14 +215,28 @@ SendIndication(dt, app) ==
 (***************************************************************************)
 (* on_buffer_recv (client.rs:833), the pipeline in code order              *)
 (***************************************************************************)
+\* RttCalcuator::update as written (rtt.rs): "first measurement" is decided by srtt == 0, so a
+\* zero-length sample (response handled at the send instant) leaves the estimator in first-sample
+\* mode with RTO = max(G, 0) = G.  (C15 excludes zero-length samples; the monitor's reference then
+\* stops judging until the next reset.)
+EstSampleCode(e, r) ==
+    LET R == r * U IN
+    IF r > RMax THEN [e EXCEPT !.unk = TRUE]     \* beyond what 32-bit TLC integers can follow
+    ELSE IF e.srtt = 0
+    THEN [srtt |-> R, rttvar |-> R \div 2, rto |-> R + Max(Gran * U, 4 * (R \div 2)),
+          first |-> (R = 0), unk |-> FALSE]
+    ELSE LET d  == IF e.srtt >= R THEN e.srtt - R ELSE R - e.srtt
+             rv == e.rttvar - (e.rttvar \div 4) + (d \div 4)
+             sr == e.srtt - (e.srtt \div 8) + (R \div 8)
+         IN [srtt |-> sr, rttvar |-> rv, rto |-> sr + Max(Gran * U, 4 * rv), first |-> FALSE, unk |-> FALSE]
+
 \* transaction_finished: heap entries removed, table entry removed, RTT sample if the send
 \* instant is still recorded and the transport is unreliable
 Finish(id, t, tx_, heap_, est_) ==
     [tx |-> [i \in (DOMAIN tx_) \ {id} |-> tx_[i]],
      heap |-> {e \in heap_ : e.id # id},
      est |-> IF id \in DOMAIN tx_ /\ tx_[id].sample >= 0 /\ ~Reliable
-             THEN IF t - tx_[id].sample > 0 THEN EstSample(est_, Cfg, t - tx_[id].sample)
-                  ELSE est_
+             THEN EstSampleCode(est_, t - tx_[id].sample)
              ELSE est_]
 
 \* short-term credential processing (st_cred_mech.rs:32-93 + integrity.rs)
